@@ -86,6 +86,22 @@ RunUnknownCase(unknown, pos, n, multi) ==
               calls |-> <<[ins |-> ins, reuse |-> <<>>, allowed |-> IF s.ok THEN MustValue(s.out) ELSE MustErrorOf(SeqOfSet(s.errc))]>>,
               checks |-> <<"inputs_unchanged", "weights_unchanged">>]]
 
+\* an unknown operator whose node contributes nothing to the graph outputs (no outputs, only omitted outputs, an unused output):
+\* Run looks every node's operator up, so it is refused all the same
+SideOuts == {<<>>, <<"">>, <<"", "">>, <<"unused">>, <<"", "unused">>}
+SideUnknownCase(unknown, outs, pos) ==
+   LET chain == <<Nd("Relu", <<>>, <<"x">>, <<"t1">>), Nd("Relu", <<>>, <<"t1">>, <<"t2">>)>>
+       side == Nd(unknown, <<>>, <<"x">>, outs)
+       nodes == SubSeq(chain, 1, pos - 1) \o <<side>> \o SubSeq(chain, pos, 2)
+       g == [nodes |-> nodes, inputs |-> <<InD("x", <<DFix(2), DFix(2)>>)>>, outputs |-> <<"t2">>, inits |-> <<>>]
+       ins == [x |-> Iota("f32", <<2, 2>>, -1)]
+       s == RunSem(g, ins)
+   IN [prop |-> "C18", fam |-> "unknown_op", kind |-> "model", op |-> "", attrs |-> <<>>, inputs |-> <<>>, nout |-> 0, allowed |-> NoCrash, cmp |-> "num", known |-> <<>>,
+       feat |-> <<"side_node", "outs" \o ToString(Len(outs))>>,
+       x |-> [model |-> [nodes |-> g.nodes, inputs |-> g.inputs, outputs |-> g.outputs, inits |-> <<>>, opset |-> 13],
+              calls |-> <<[ins |-> ins, reuse |-> <<>>, allowed |-> IF s.ok THEN MustValue(s.out) ELSE MustErrorOf(SeqOfSet(s.errc))]>>,
+              checks |-> <<"inputs_unchanged">>]]
+
 \* ---- the repository's sample files (two of them are not models at all) and seeded random byte strings
 Files == {"mlp.onnx", "gru.onnx", "ndm.onnx", "scaler.onnx", "mnist-8-opset13.onnx", "nt_1.zip"}
 FileCase(f, pert) ==
@@ -113,11 +129,13 @@ Emit ==
         [] st.fam = "unknown" ->
              /\ \A n \in 1..3 : \A pos \in 1..n : P(RunUnknownCase(st.u, pos, n, FALSE))
              /\ \A pos \in 2..3 : P(RunUnknownCase(st.u, pos, 3, TRUE))
+             /\ \A outs \in SideOuts : \A pos \in 1..3 : P(SideUnknownCase(st.u, outs, pos))
    /\ st' = [st EXCEPT !.done = TRUE]
 Next == Emit
 Spec == Init /\ [][Next]_st
 \* design-level: an unsupported operator always makes the specification's Run fail with exactly that error
 UnknownAlwaysRefused ==
    st.fam = "unknown" => \A n \in 1..3 : \A pos \in 1..n :
-      LET c == RunUnknownCase(st.u, pos, n, FALSE) IN c.x.calls[1].allowed = MustErrorOf(<<"UnsupportedOperator">>)
+      /\ LET c == RunUnknownCase(st.u, pos, n, FALSE) IN c.x.calls[1].allowed = MustErrorOf(<<"UnsupportedOperator">>)
+      /\ (pos <= 3 => \A outs \in SideOuts : SideUnknownCase(st.u, outs, pos).x.calls[1].allowed = MustErrorOf(<<"UnsupportedOperator">>))
 =============================================================================
